@@ -1,9 +1,12 @@
 (* C02 - goal contract and status honesty.  Statements only; model in Goal/GoalModel.v (executable on Q,
    extracted to bin/goalq and evaluated on the exact export of every run), proofs in Goal/GoalProps.v.
-   What is NOT modelled: the solver's iteration (which roots end up in which status); the check evaluates
-   the property's predicate on each run instead. *)
+   Second layer (end of this file): the control flow that decides the statuses - stop tests, every exit of the classic
+   driver, the refinement loop, the status writes of mps_*modify - transcribed in Goal/StopModel.v as functions that
+   consume the outcomes of the opaque calls as events; proofs in Goal/StopProps.v; extracted to bin/stopq and replayed
+   against the real calls on every run.
+   What is NOT modelled: the solver's iteration (what a phase does to values, radii and clusters: event payloads). *)
 From Coq Require Import QArith Qreals Reals List ZArith Lra Lia.
-Require Import MPSV.Goal.GoalModel MPSV.Goal.GoalProps.
+Require Import MPSV.Goal.GoalModel MPSV.Goal.GoalProps MPSV.Goal.StopModel MPSV.Goal.StopProps.
 Import ListNotations.
 Local Open Scope R_scope.
 
@@ -244,3 +247,193 @@ Proof.
   - unfold Rtrunc. destruct (Rle_dec 0 1) as [_|N]; [|exfalso; lra].
     replace 1 with (INR 1) by reflexivity. rewrite Int_part_INR. simpl. lia.
 Qed.
+
+
+(* ====================================================================================================================
+   CONTROL FLOW (Goal/StopModel.v).  All theorems below are closed under the global context. *)
+Local Close Scope R_scope.
+Local Open Scope nat_scope.
+
+(* mps_check_stop (unisolve/solve.c) returning true under the isolate / approximate goal: every root whose inclusion is
+   UNKNOWN or IN (i.e. not OUT) has a computed status (ISOLATED, APPROXIMATED, APPROXIMATED_IN_CLUSTER) *)
+Theorem C02_check_stop_true_computed :
+  forall (g : goal) (mult props : bool) (rs : list rt),
+  g <> GCount -> check_stop g mult props rs = true ->
+  Forall (fun r => rinc r = INC_UNKNOWN \/ rinc r = INC_IN -> is_computed (rst r) = true) rs.
+Proof. exact check_stop_true_computed. Qed.
+Print Assumptions C02_check_stop_true_computed.
+
+Example C02_check_stop_accepts :
+  check_stop GIsolate false false [mkRt ST_ISOLATED INC_IN true; mkRt ST_CLUSTERED INC_OUT true; mkRt ST_APPROXIMATED_IN_CLUSTER INC_UNKNOWN true] = true.
+Proof. reflexivity. Qed.
+Example C02_check_stop_rejects_clustered :
+  check_stop GApproximate false false [mkRt ST_ISOLATED INC_IN true; mkRt ST_CLUSTERED INC_IN true] = false.
+Proof. reflexivity. Qed.
+(* the count goal is different: a stop does not mean computed *)
+Example C02_check_stop_count_goal_differs :
+  check_stop GCount false false [mkRt ST_CLUSTERED INC_IN true] = true.
+Proof. reflexivity. Qed.
+
+(* mps_secular_ga_check_stop (secsolve/secular-ga.c), when no exit was requested and a phase is set *)
+Theorem C02_sec_check_stop_true_computed :
+  forall (ph : phase) (sts : list nat),
+  ph <> NoPhase -> sec_check_stop false ph sts = true -> forallb is_computed sts = true.
+Proof. exact sec_check_stop_true_computed. Qed.
+Print Assumptions C02_sec_check_stop_true_computed.
+
+(* both hypotheses are needed: exit_required, or lastphase == no_phase (the `default: break`), make the test true *)
+Example C02_sec_check_stop_exit_required : sec_check_stop true MpPhase [ST_CLUSTERED] = true.
+Proof. reflexivity. Qed.
+Example C02_sec_check_stop_no_phase : sec_check_stop false NoPhase [ST_CLUSTERED] = true.
+Proof. reflexivity. Qed.
+Example C02_sec_check_stop_rejects : sec_check_stop false FloatPhase [ST_ISOLATED; ST_CLUSTERED] = false.
+Proof. reflexivity. Qed.
+
+(* the status writes of mps_fmodify / mps_dmodify / mps_mmodify over the whole array (clusters walked as the code walks
+   them) act on every root as the per-root function modify_status of the first layer; a root in no cluster is only retagged *)
+Theorem C02_modify_roots_pointwise :
+  forall (v : variant) (track : bool) (cls : list cluster) (w : list bool) (sts : list nat) (i : nat),
+  clusters_wf (length sts) cls -> i < length sts ->
+  nth i (modify_roots v track cls w sts) 0 =
+  match cluster_of i cls with
+  | Some c => modify_status v track (cn c) (nth i sts 0) (nth i w false)
+  | None => retag track (nth i sts 0)
+  end.
+Proof. exact modify_roots_pointwise. Qed.
+Print Assumptions C02_modify_roots_pointwise.
+
+Example C02_modify_roots_example :
+  modify_roots VMp true [mkCl 2 [0; 2]; mkCl 1 [1]] [false; false; true] [ST_CLUSTERED; ST_CLUSTERED; ST_ISOLATED]
+  = [ST_NEW_CLUSTERED; ST_ISOLATED; ST_APPROXIMATED_IN_CLUSTER]
+  /\ clusters_wf 3 [mkCl 2 [0; 2]; mkCl 1 [1]].
+Proof.
+  split; [reflexivity|]. split.
+  - simpl. repeat constructor; simpl; intuition discriminate.
+  - repeat constructor.
+Qed.
+
+(* mps_mmodify (s, true) followed by the reset loop, called a second time with the same clusters and the same outcomes
+   of the radius tests, changes no status (the classic driver does this after every mps_msolve) *)
+Theorem C02_modify_step_idempotent :
+  forall (v : variant) (cls : list cluster) (w : list bool) (sts : list nat),
+  clusters_wf (length sts) cls ->
+  reset_new (modify_roots v true cls w (reset_new (modify_roots v true cls w sts))) = reset_new (modify_roots v true cls w sts).
+Proof. exact modify_step_idempotent. Qed.
+Print Assumptions C02_modify_step_idempotent.
+
+(* the refinement loop of mps_improve that ends normally (neither `goto cleanup` with over_max nor the early return)
+   leaves every root approximated - provided no root is OUT of the search set *)
+Theorem C02_improve_normal_all_approximated :
+  forall (nonewton user : bool) (pprec cp0 : Z) (rounds : list (list bool)) (rs : list rt) (io : imp_out),
+  improve nonewton user pprec cp0 rounds rs = Some io ->
+  Forall (fun r => rinc r <> INC_OUT) rs ->
+  io_over io = false -> io_skipped io = false ->
+  forallb is_approximated (io_sts io) = true /\ length (io_sts io) = length rs.
+Proof. exact improve_normal_all_approximated. Qed.
+Print Assumptions C02_improve_normal_all_approximated.
+
+Example C02_improve_two_rounds :
+  improve false false 0 64 [[true; false]; [false; true]] [mkRt ST_ISOLATED INC_IN true; mkRt ST_ISOLATED INC_IN true]
+  = Some (mkImp [ST_APPROXIMATED; ST_APPROXIMATED] false 2 false).
+Proof. reflexivity. Qed.
+(* the hypothesis on OUT is needed: approximated_roots counts a root that is OUT at the start AND again when its bits
+   test succeeds, so the loop can end while a root IN the set is still only isolated (outside C02's quantifier) *)
+Example C02_improve_out_is_counted_twice :
+  improve false false 0 64 [[true; false]] [mkRt ST_ISOLATED INC_OUT true; mkRt ST_ISOLATED INC_IN true]
+  = Some (mkImp [ST_APPROXIMATED; ST_ISOLATED] false 1 false).
+Proof. reflexivity. Qed.
+(* the early return: a polynomial type without mnewton (Chebyshev) is not refined at all *)
+Example C02_improve_skips_without_mnewton :
+  improve true false 0 64 [] [mkRt ST_ISOLATED INC_IN true] = Some (mkImp [ST_ISOLATED] false 0 true).
+Proof. reflexivity. Qed.
+
+(* mps_standard_mpsolve, isolate goal: a run that reaches mps_copy_roots without over_max, and not through the silent
+   branch, had a last stop test that returned true on roots all computed; the roots it returns are those roots, or
+   (exit from the MP loop) those roots after the driver's own mps_mmodify (s, true) + reset; mps_improve is not run *)
+Theorem C02_std_isolate :
+  forall (cfg : scfg) (evs : list sev) (o : sout) (h : how),
+  std_run cfg evs = Some o -> so_exit o = XDone h -> c_goal cfg = GIsolate ->
+  so_over_max o = false -> (h <> HSilent \/ c_fixed cfg = true) ->
+  Forall (fun r => rinc r = INC_UNKNOWN \/ rinc r = INC_IN -> is_computed (rst r) = true) (so_seen o) /\
+  (exists tl, so_stops o = true :: tl) /\ so_improve o = None /\
+  (so_lastmod o = None -> so_roots o = so_seen o) /\
+  (forall cls w, so_lastmod o = Some (cls, w) ->
+     map rst (so_roots o) = reset_new (modify_roots VMp true cls w (map rst (so_seen o))) /\ length (so_roots o) = length (so_seen o)).
+Proof. exact std_isolate. Qed.
+Print Assumptions C02_std_isolate.
+
+(* ... and when that mps_mmodify has the operands of the one mps_msolve ended with (checked on every real trace), the
+   statuses returned are exactly the statuses the last stop test saw *)
+Theorem C02_std_isolate_returns_seen :
+  forall (cfg : scfg) (evs : list sev) (o : sout) (h : how),
+  std_run cfg evs = Some o -> so_exit o = XDone h -> c_goal cfg = GIsolate ->
+  so_over_max o = false -> (h <> HSilent \/ c_fixed cfg = true) ->
+  (forall cls w, so_lastmod o = Some (cls, w) ->
+     clusters_wf (length (so_seen o)) cls /\
+     exists s0, length s0 = length (so_seen o) /\ map rst (so_seen o) = reset_new (modify_roots VMp true cls w s0)) ->
+  map rst (so_roots o) = map rst (so_seen o) /\
+  Forall (fun r => rinc r = INC_UNKNOWN \/ rinc r = INC_IN -> is_computed (rst r) = true) (so_seen o).
+Proof. exact std_isolate_returns_seen. Qed.
+Print Assumptions C02_std_isolate_returns_seen.
+
+(* approximate goal: without over_max (neither from the MP loop nor from mps_improve) and with no root OUT, every
+   returned root is approximated *)
+Theorem C02_std_approximate :
+  forall (cfg : scfg) (evs : list sev) (o : sout) (h : how),
+  std_run cfg evs = Some o -> so_exit o = XDone h -> c_goal cfg = GApproximate ->
+  so_over_max o = false -> (h <> HSilent \/ c_fixed cfg = true) ->
+  Forall (fun r => rinc r <> INC_OUT) (so_roots o) ->
+  Forall (fun r => rinc r = INC_UNKNOWN \/ rinc r = INC_IN -> is_computed (rst r) = true) (so_seen o) /\
+  forallb is_approximated (map rst (so_roots o)) = true.
+Proof. exact std_approximate. Qed.
+Print Assumptions C02_std_approximate.
+
+(* non-vacuity: a float-phase stop (isolate), an MP-loop stop (isolate), an early exit with two refinement rounds (approximate) *)
+Definition ex_cfg (g : goal) : scfg := mkScfg g false false false true false 100000000 64 0 false false.
+Definition ex_r (s : nat) : rt := mkRt s INC_IN true.
+Example C02_std_run_float_stop :
+  exists o, std_run (ex_cfg GIsolate) [SvCheckData false false; SvFSolve false [ex_r ST_ISOLATED; ex_r ST_APPROXIMATED]; SvExitSub 2] = Some o /\
+            so_exit o = XDone HFloatStop /\ so_over_max o = false /\ so_roots o = [ex_r ST_ISOLATED; ex_r ST_APPROXIMATED].
+Proof. eexists; split; [vm_compute; reflexivity|]. simpl; auto. Qed.
+Example C02_std_run_loop_stop :
+  exists o, std_run (ex_cfg GIsolate)
+      [SvCheckData false false; SvFSolve false [ex_r ST_CLUSTERED; ex_r ST_CLUSTERED];
+       SvMSolve [ex_r ST_CLUSTERED; ex_r ST_CLUSTERED]; SvMModify [mkCl 2 [0; 1]] [false; false] [(INC_IN, true); (INC_IN, true)];
+       SvMSolve [ex_r ST_ISOLATED; ex_r ST_ISOLATED]; SvMModify [mkCl 1 [0]; mkCl 1 [1]] [false; false] [(INC_IN, true); (INC_IN, true)];
+       SvExitSub 2] = Some o /\
+    so_exit o = XDone HLoopComputed /\ so_over_max o = false /\ so_mpwp o = 448%Z /\ so_stops o = [true; false; false] /\
+    map rst (so_roots o) = [ST_ISOLATED; ST_ISOLATED].
+Proof. eexists; split; [vm_compute; reflexivity|]. simpl; auto 10. Qed.
+Example C02_std_run_approximate :
+  exists o, std_run (ex_cfg GApproximate)
+      [SvCheckData false false; SvFSolve false [ex_r ST_ISOLATED; ex_r ST_APPROXIMATED]; SvExitSub 2;
+       SvImprove 64 [[false; false]; [true; false]]] = Some o /\
+    so_exit o = XDone HApproxEarly /\ so_over_max o = false /\ map rst (so_roots o) = [ST_APPROXIMATED; ST_APPROXIMATED].
+Proof. eexists; split; [vm_compute; reflexivity|]. simpl; auto. Qed.
+
+(* REFUTED for the code as it is: when mpwp_max falls into a gap of the precision sequence (here 128 <= 150 <= 192) the
+   loop `while (!computed && mpwp < mpwp_max)` ends without the branch that sets over_max; == 8 == only logs; the driver
+   returns with over_max = false and a CLUSTERED root that is IN.  Replayed on the real solver on every run (-W 150). *)
+Theorem C02_std_silent_cap_refuted :
+  exists (cfg : scfg) (evs : list sev) (o : sout),
+  c_fixed cfg = false /\ c_goal cfg = GIsolate /\ std_run cfg evs = Some o /\
+  so_exit o = XDone HSilent /\ so_over_max o = false /\ so_mpwp o = 192%Z /\
+  exists r, In r (so_roots o) /\ rst r = ST_CLUSTERED /\ rinc r = INC_IN.
+Proof. exact std_silent_cap_refuted. Qed.
+Print Assumptions C02_std_silent_cap_refuted.
+
+(* with fixes/C02_silent_precision_cap.patch (over_max recorded in that branch) it cannot happen *)
+Theorem C02_std_fixed_not_silent :
+  forall (cfg : scfg) (evs : list sev) (o : sout) (h : how),
+  c_fixed cfg = true -> std_run cfg evs = Some o -> so_exit o = XDone h -> so_over_max o = false ->
+  so_computed o = true /\
+  Forall (fun r => rinc r = INC_UNKNOWN \/ rinc r = INC_IN -> is_computed (rst r) = true) (so_seen o) \/ c_goal cfg = GCount.
+Proof. exact std_fixed_not_silent. Qed.
+Print Assumptions C02_std_fixed_not_silent.
+
+(* and it cannot happen with the default cap mpwp_max = 100000000 and 64-bit limbs: the sequence 64 (2^k - 1) jumps over it *)
+Theorem C02_std_default_cap_not_silent :
+  forall (cfg : scfg) (evs : list sev) (o : sout),
+  c_mpwp_max cfg = 100000000%Z -> c_minprec cfg = 64%Z -> std_run cfg evs = Some o -> so_exit o <> XDone HSilent.
+Proof. exact std_default_cap_not_silent. Qed.
+Print Assumptions C02_std_default_cap_not_silent.
